@@ -97,6 +97,9 @@ def gen_aspath(rng, big: bool) -> list:
         segs.append([rng.choice([2, 2, 2, 1]), [rng.choice(pool) for _ in range(n)]])
     if big and segs and not any(a > 65535 for _, l in segs for a in l) and rng.random() < 0.8:
         segs[rng.randrange(len(segs))][1][0] = rng.choice(ASNS_BIG)
+    if big and rng.random() < 0.2:
+        # confederation segments lead the path (RFC 5065); on a 2-octet session they are not in AS4_PATH (RFC 6793 3)
+        segs = [[rng.choice([3, 3, 4]), [rng.choice(pool) for _ in range(rng.choice([1, 2, 3]))]] for _ in range(rng.choice([1, 1, 2]))] + segs
     return segs
 
 
